@@ -222,4 +222,4 @@ Proof. vm_compute. reflexivity. Qed.
              assumptions=["asynchronous exceptions injected between two mutation lines are not counted (no validate-then-mutate code is atomic against them)",
                           "Logarithm / LogarithmicUnit aliases are outside the property (dimension, prefix or unit)"])
 
-main()
+guarded(main, "C19")
